@@ -350,10 +350,12 @@ class RegexVM:
 
                 ch = string[sp]
                 ch_code = ord(ch.lower() if self.ignorecase else ch)
+                # Under the i flag a class contains a letter if it contains either case of it
+                ch_upper = ord(ch.upper()) if self.ignorecase else ch_code
 
                 matched = False
                 for start, end in ranges:
-                    if start <= ch_code <= end:
+                    if start <= ch_code <= end or start <= ch_upper <= end:
                         matched = True
                         break
 
